@@ -20,7 +20,7 @@ m('C01b','C01','VerifyProposal: epoch taken from the vote, not from the state', 
 		return 0, errorsmod.Wrap(sdkerrors.ErrInvalidRequest, "incorrect epoch")
 	}
 ''',''), ('x/relayer/keeper/proposal.go','sequence, relayer.Epoch, req.VoteSigDoc())','sequence, req.GetVote().GetEpoch(), req.VoteSigDoc())'))
-m('C01c','C01','VerifyProposal: sign-doc no longer binds the method name', ('x/relayer/keeper/proposal.go','types.VoteSignDoc(req.MethodName(),','types.VoteSignDoc("",')))
+m('C01c','C01','VerifyProposal: sign-doc no longer binds the method name', ('x/relayer/keeper/proposal.go','types.VoteSignDoc(req.MethodName(),','types.VoteSignDoc("",'))
 m('C02a','C02','NewConsolidation does not advance the sequence', ('x/bitcoin/keeper/tx.go','''	txid := goatcrypto.DoubleSHA256Sum(req.NoWitnessTx)
 	if err := k.relayerKeeper.SetProposalSeq(sdkctx, sequence+1); err != nil {
 		return nil, err
